@@ -167,5 +167,13 @@ def r4(ctx):
                   'estimation_state = %s' % ws, sample=len(ws))
 
 
-RULES = [r1, r2, r3, r4]
-FLOORS = {'C43-R1': 12, 'C43-R2': 4, 'C43-R3': 20, 'C43-R4': 24}
+def r5(ctx):
+    # the frequency/offset a query reports for a clock is read through that clock's base index: the index bookkeeping of the estimator
+    # (shifts on removal by the removed entry's own size, new index = state.rows()) is therefore part of "reports the estimate of this clock"
+    from rules import C42
+    C42.r3(ctx)
+    C42.r4(ctx)
+
+
+RULES = [r1, r2, r3, r4, r5]
+FLOORS = {'C43-R1': 12, 'C43-R2': 4, 'C43-R3': 20, 'C43-R4': 24, 'C42-R3': 45, 'C42-R4': 14}
